@@ -854,3 +854,28 @@ func (s *system) panicLines() []string {
 }
 
 var _ = bufio.NewReader
+
+// startPollObserver is a tiny reverse proxy in front of the broker front that
+// reports the Clients field of every /proxy poll body.
+func startPollObserver(frontAddr string, onPoll func(clients int)) (net.Listener, error) {
+	ln, err := net.Listen("tcp", "127.0.0.1:0")
+	if err != nil {
+		return nil, err
+	}
+	target, _ := url.Parse("http://" + frontAddr)
+	rp := httputil.NewSingleHostReverseProxy(target)
+	mux := http.NewServeMux()
+	mux.HandleFunc("/", func(w http.ResponseWriter, r *http.Request) {
+		body, _ := ioutil.ReadAll(r.Body)
+		r.Body = ioutil.NopCloser(bytes.NewReader(body))
+		if r.URL.Path == "/proxy" {
+			var m struct{ Clients int }
+			if json.Unmarshal(body, &m) == nil {
+				onPoll(m.Clients)
+			}
+		}
+		rp.ServeHTTP(w, r)
+	})
+	go http.Serve(ln, mux)
+	return ln, nil
+}
